@@ -23,6 +23,10 @@ CHECKS = {
          "exhaustive enumeration of token-spelling pairs/triples x separators and of all short byte strings, each lexed by the real css.Lexer and by a transcription of the CSS Syntax 3 tokenizer (reference model), traces compared token by token",
          "A vocabulary of ~170 spellings covering every token class and look-ahead of CSS Syntax 3 is combined exhaustively (all singles, all ordered pairs x 4 separators, all triples over a 46-spelling core x separators) and every byte string up to 4 atoms over a 61-atom alphabet (5 over the core) is enumerated; the real lexer's (type,text) list must equal the reference tokenizer's wherever the reference reports neither a spec parse error nor a documented ambiguity; malformed inputs are compared up to the malformed construct and for the BadString / one-BadURL-to-the-matching-paren clauses. IsIdent/IsURLUnquoted are compared with the library's own lexer on every enumerated string, incl. that the argument's array is untouched.",
          "Reference = CSS Syntax 3 CR-2014 tokenizer (+ comments as tokens, --x as custom-property-name). Skipped as ambiguous: NUL / invalid UTF-8, url( spelled with hex escapes, number followed by --, unicode-range with >6 digits or a dangling '-' (library behaviour pinned by its own tests)."),
+ "C08": ("exploration",
+         "exhaustive generation of well-formed stylesheets from a grammar with the expected unit stream by construction, Values() judged against the C07 reference tokenizer, and bounded-exhaustive byte strings for the nesting/conservation clauses with a shadow stack",
+         "Every single item and every ordered pair of ~330 top-level items (rulesets x selectors x declaration lists, nested rulesets, at-rules of every kind and spelling x preludes x bodies, unknown at-rules, statement at-rules, custom properties, comments, CDO/CDC) x 3 separators, plus inline declaration lists, is parsed in the matching mode: unit types and lower-cased names must equal the construction; Values() minus whitespace must equal the source's component tokens; whitespace tokens must be single, non-adjacent, only where the source has whitespace and present where it separates compound selectors / word-like value tokens; custom-property values are the exact source text. On every byte string up to 3-4 atoms (4-5 over the core) and all single-edit neighbours of the CSS seeds, in both modes: End units match the shadow stack of Begin units, no Begin is left open at the end-of-input report unless a parse error was reported, every token reported through data or Values() occurs in the input in source order, the stream ends with io.EOF.",
+         "Values() is judged only for the units the documentation names (AtRule, BeginAtRule, BeginRuleset, Declaration, CustomProperty). The leading whitespace token of an at-rule prelude (pinned by the library's tests) is accepted; the IE '*' hack joins two tokens."),
  "C09": ("exploration",
          "exhaustive generation of documents from a construct catalogue with expected tokens by construction, exhaustive raw-text contents against a transcription of the HTML tokenizer's raw-text/script states, exhaustive template-region placements, and bounded-exhaustive byte strings for structural invariants",
          "Every sequence of <=3 constructs from a ~75-construct catalogue is lexed (plain, and <=2 constructs under three dialects) and the list of (type, data, Text/AttrKey lower-cased, AttrVal verbatim, HasTemplate) must equal the list known by construction; for each of the 7 raw-text elements every content of <=4 (script: 5) fragments x 3 tails x 2 start-tag spellings must come back as one text token ending exactly where a reference transcription of the RCDATA/RAWTEXT/script-data double-escape states ends it; six dialects x 10 region bodies (quotes, escaped quotes, fake end delimiters) x 10 placements (text, attribute name, unquoted/quoted values, between attributes, raw text) have expected tokens incl. HasTemplate; on every byte string up to the bound x dialects Attribute tokens occur only between a start tag and its closer.",
